@@ -104,6 +104,7 @@ class Tr:
             if any(l in (1, 2) for l in self.lock.values()): r.append(V(3, self.nid()))
             return r
         if k == 'CMP': return ['q %d' % m['r_grav']] if m['grav'] else []
+        if k == 'CP': return ['c']
         raise ValueError(o)
 
 def texts(m, hists):
@@ -138,7 +139,8 @@ def gen_history(rng, m, maxops=30, cmp_every=False):
     n = rng.randrange(6, maxops + 1)
     while len(ops) < n - 2:
         r = rng.random()
-        if r < 0.30: ops.append(('R', rng.choice([3, 4, 5, 5, 6, 7, 7, 7, 8, 8])))
+        if r < 0.03: ops.append(('CP',))
+        elif r < 0.30: ops.append(('R', rng.choice([3, 4, 5, 5, 6, 7, 7, 7, 8, 8])))
         elif r < 0.45: ops.append(('X', rng.randrange(6)))
         elif r < 0.55 or cmp_every: ops.append(('CMP',));
         if r >= 0.45 or cmp_every: ops.append(modification())
@@ -346,7 +348,7 @@ def run(ctx):
         if not (m['wf'] and m['sound']):
             ctx.broken.append(('table:unsound:system%d' % m['idx'], 'scanned dependency table not sound for system %d: (result:variable) pairs %s' % (m['idx'], m['unsound'])))
     wn, wc = witness(ctx, exe, drv, L)
-    nper = 100 if ctx.tier == 'quick' else 2500
+    nper = 100 if ctx.tier == 'quick' else 1000
     tot, first = correspondence(ctx, exe, drv, L, nper)
     ctx.add_cases(tot['status'] + wn, tot['nontrivial'], None)
     ctx.cov['rule'] = ('correspondence: %d histories (<= 30 operations; %d systems of C16_Systems.models; regression witness first) on the real System and on the '
@@ -376,7 +378,7 @@ def run(ctx):
         'dependsOnlyOnPositions() declaration)',
         'the table lists the result classes named in DESIGN 5 C16 (kinematics caches, composite/articulated inertias, per-element force contributions, Gravity cache, '
         'force totals, accelerations); potential energy of non-caching elements is recomputed on every request and not in the model; contact, cable and '
-        'thermostat elements, Motion objects, event witnesses and State copy/assignment are not in the model',
+        'thermostat elements, Motion objects and event witnesses are not in the model; State copy construction is (operation CP: the history continues on the copy), copy assignment into a used State is not',
         'Force::Gravity is never disabled in generated histories (a disabled Gravity is not evaluated at Dynamics, which the eager-by-Dynamics entry does not model)',
         'single-threaded force evaluation (setNumberOfThreads(1)); threading is C17',
         'comparison with the fresh State: bitwise for %d of %d values, the rest within 1e-11 relative (summation order only)' % (tot['cmp_bitwise'], tot['cmp_values'])]
